@@ -24,6 +24,8 @@ def run(ctx):
                    predicate=dc.pred_parts, nontrivial=nz)
     ctx.correspond("DIST-WHOLE", suites.dist_whole_cases(ctx.rng.fork("whole"), ctx.tier), hb, db, flags=fl,
                    predicate=dc.pred_parts, nontrivial=nz)
+    ctx.correspond("DIST-HEADER-COMBO", suites.dist_header_combo_cases(ctx.rng.fork("combo"), ctx.tier), hb, db, flags=fl,
+                   predicate=dc.pred_parts, nontrivial=nz, coq_sample=4)
     # the builds that compile the OTHER header-distance code (no length table: naive ring distance; 16x16 Q table; no Q table) and
     # select the pseudo-SIMD body kernels statically: exhaustive header suites and the whole-hash suite again, model under their flags
     for name in ["nosimd", "embedded", "lowmem", "decq"]:
